@@ -7,6 +7,29 @@
 using namespace vf;
 static std::string g_tmp;
 
+// ---------------------------------------------------------------- failpoint in the global allocation functions
+// Temporaries inside the library (permuteDimensions, convolve, the stacking constructor, string streams...) come from operator new, not from the table's
+// allocator. While a library call is running ("armed") the k-th such allocation can be made to throw std::bad_alloc.
+struct AllocCtl;
+static long g_new_count = 0, g_new_fail_at = -1, g_new_failed = 0; static int g_new_armed = 0; static AllocCtl *g_cur_ctl = nullptr;
+static void new_failed_hook();
+static void *vf_new(size_t n) {
+	if (g_new_armed > 0) { long idx = g_new_count++; if (g_new_fail_at >= 0 && idx == g_new_fail_at) { g_new_failed++; new_failed_hook(); throw std::bad_alloc(); } }
+	void *p = malloc(n ? n : 1); if (!p) throw std::bad_alloc(); return p;
+}
+void *operator new(size_t n) { return vf_new(n); }
+void *operator new[](size_t n) { return vf_new(n); }
+void *operator new(size_t n, const std::nothrow_t &) noexcept { try { return vf_new(n); } catch (...) { return nullptr; } }
+void *operator new[](size_t n, const std::nothrow_t &) noexcept { try { return vf_new(n); } catch (...) { return nullptr; } }
+void operator delete(void *p) noexcept { free(p); }
+void operator delete[](void *p) noexcept { free(p); }
+void operator delete(void *p, size_t) noexcept { free(p); }
+void operator delete[](void *p, size_t) noexcept { free(p); }
+void operator delete(void *p, const std::nothrow_t &) noexcept { free(p); }
+void operator delete[](void *p, const std::nothrow_t &) noexcept { free(p); }
+struct NewArm { NewArm() { g_new_armed++; } ~NewArm() { g_new_armed--; } };                       // a library call is running
+struct NewSuspend { int s; NewSuspend() : s(g_new_armed) { g_new_armed = 0; } ~NewSuspend() { g_new_armed = s; } }; // harness bookkeeping inside a library call
+
 // ---------------------------------------------------------------- instrumented allocator (passed through the Alloc template parameter)
 // An AllocState is one arena: a ledger of the blocks it handed out. Several arenas of one history share an AllocCtl, which numbers the allocations of the
 // whole history (fault injection: "the k-th allocation fails"). A block must come back to the arena it came from (allocators that compare unequal).
@@ -17,6 +40,7 @@ struct AllocState {
 	AllocCtl &C() { return ctl ? *ctl : own; }
 	void reset_peak() { peak = live_bytes; }
 };
+static void new_failed_hook() { if (g_cur_ctl) g_cur_ctl->failed++; }
 static std::vector<AllocState *> g_arenas; // arenas of the running history (to recognise a block handed to the wrong one)
 static AllocState g_default_state; // used by default-constructed allocators (e.g. the one a moved-from table is left with)
 template <class T> struct CA {
@@ -25,13 +49,13 @@ template <class T> struct CA {
 	template <class U> CA(const CA<U> &o) : st(o.st) {}
 	AllocState &S() const { return st ? *st : g_default_state; }
 	T *allocate(size_t n) {
-		AllocState &s = S(); AllocCtl &c = s.C(); long idx = c.nalloc++;
+		NewSuspend ns_; AllocState &s = S(); AllocCtl &c = s.C(); long idx = c.nalloc++;
 		if (c.fail_at >= 0 && (idx == c.fail_at || (c.sticky && idx > c.fail_at))) { c.failed++; throw std::bad_alloc(); }
 		size_t b = n * sizeof(T); void *p = malloc(b ? b : 1); if (!p) throw std::bad_alloc();
 		s.live[p] = b; s.live_bytes += b; if (s.live_bytes > s.peak) s.peak = s.live_bytes; return (T *)p;
 	}
 	void deallocate(T *p, size_t n) {
-		AllocState &s = S(); if (!p) { if (n) s.errors.push_back("deallocate(nullptr," + std::to_string(n) + ")"); return; }
+		NewSuspend ns_; AllocState &s = S(); if (!p) { if (n) s.errors.push_back("deallocate(nullptr," + std::to_string(n) + ")"); return; }
 		auto it = s.live.find((void *)p);
 		if (it == s.live.end()) {
 			std::vector<AllocState *> others = g_arenas; others.push_back(&g_default_state);
@@ -140,6 +164,7 @@ struct Seq { std::vector<std::vector<uint64_t>> ops; }; // op = {kind, target, o
 // executes one history; returns number of allocations made through the state; violations are reported inside
 static long run_history(const Args &a, uint64_t seqseed, long cs, AllocCtl &st, bool faulted, std::string &hist) {
 	Rng r(a.seed * 1000003 + seqseed, "C20seq", (uint64_t)cs);
+	g_cur_ctl = &st; g_new_count = 0;
 	int nobj = r.range(1, 3), nops = 6 + (int)r.below(20);
 	std::vector<ATable *> obj(nobj, nullptr);
 	// arenas: in half of the histories every object slot has its own arena (allocator instances that compare unequal; tables migrate between slots by
@@ -166,11 +191,11 @@ static long run_history(const Args &a, uint64_t seqseed, long cs, AllocCtl &st, 
 			switch (kind) {
 			case 0: { hist += "reset" + std::to_string(ti) + ";"; phase_log("destroy+construct"); delete T; T = nullptr; T = fresh(ti); break; }
 			case 1: { int w = (int)r.below(3); hist += std::string("pathctor") + std::to_string(ti) + (w == 0 ? "(good);" : w == 1 ? "(truncated);" : "(missing);"); phase_log("path constructor"); delete T; T = nullptr;
-				try { T = new ATable(w == 0 ? good : w == 1 ? bad : g_tmp + "/nonexistent.fits", CA<void>(arena(ti))); } catch (std::exception &e) { threw = true; }
+				try { NewArm na_; T = new ATable(w == 0 ? good : w == 1 ? bad : g_tmp + "/nonexistent.fits", CA<void>(arena(ti))); } catch (std::exception &e) { threw = true; }
 				if (!T) T = fresh(ti); if (w == 0 && !threw) { Snap s2 = snap(*T); if (s2.ndim != 2) fail("path-constructor:good-file-not-loaded"); } if (w != 0 && !threw) fail("path-constructor:bad-file-accepted"); if (w == 0 && threw && st.failed == failed0) fail("path-constructor:good-file-rejected"); break; }
 			case 2: case 3: { int w = (int)r.below(3); bool mem = kind == 3; hist += std::string(mem ? "readmem" : "read") + std::to_string(ti) + (w == 0 ? "(good" : w == 1 ? "(truncated" : "(missing") + (populated ? ",populated);" : ");"); phase_log(mem ? "read_fits_mem" : "read_fits");
 				std::vector<unsigned char> cp((unsigned char *)gb.p, (unsigned char *)gb.p + (w == 0 ? gb.n : w == 1 ? gb.n * 2 / 3 + 11 : 100));
-				try { if (mem) T->read_fits_mem(cp.data(), cp.size()); else T->read_fits(w == 0 ? good : w == 1 ? bad : g_tmp + "/nonexistent.fits"); } catch (std::exception &e) { threw = true; }
+				try { NewArm na_; if (mem) T->read_fits_mem(cp.data(), cp.size()); else T->read_fits(w == 0 ? good : w == 1 ? bad : g_tmp + "/nonexistent.fits"); } catch (std::exception &e) { threw = true; }
 				if (populated) { if (!threw) fail("read:populated-table-silently-overwritten"); else if (!snap_eq(snap(*T), before)) fail("read:refused-read-changed-populated-table"); }
 				else if (threw) { post_failed("read"); if (w == 0 && st.failed == failed0) fail("read:good-file-rejected"); }
 				else { if (w != 0) fail("read:bad-file-accepted"); Snap s2 = snap(*T); if (s2.ndim != 2 || s2.order[0] != g1.order[0] || s2.aux.size() != g1.aux.size()) fail("read:loaded-table-differs-from-file"); }
@@ -182,7 +207,7 @@ static long run_history(const Args &a, uint64_t seqseed, long cs, AllocCtl &st, 
 				photospline::ndsparse data(npt, nd); std::vector<double> w(npt, 1.0); std::vector<unsigned> I(nd); for (size_t lin = 0; lin < npt; lin++) { size_t q = lin; for (int d = nd - 1; d >= 0; d--) { I[d] = (unsigned)(q % co[d].size()); q /= co[d].size(); } data.insertEntry(std::cos(0.7 * lin) + 2, I.data()); }
 				uint32_t monodim = r.coin(0.2) ? 0 : ATable::no_monodim;
 				hist += std::string("fit") + std::to_string(ti) + (bad ? "(bad" : "(good") + (populated ? ",populated);" : ");"); phase_log("fit");
-				try { T->fit(data, w, co, ord, kn, lam, por, monodim, false); } catch (std::exception &e) { threw = true; }
+				try { NewArm na_; T->fit(data, w, co, ord, kn, lam, por, monodim, false); } catch (std::exception &e) { threw = true; }
 				if (populated) { if (!threw) { // allowed alternative: replaced after releasing the old storage (leaks are caught by the ledger)
 						Snap s2 = snap(*T); if (s2.ndim != (unsigned)nd) fail("fit:populated-table-in-inconsistent-state-after-fit"); } else if (!snap_eq(snap(*T), before)) fail("fit:refused-fit-changed-populated-table"); }
 				else if (threw) { post_failed("fit"); if (!bad && st.failed == failed0) fail("fit:valid-arguments-rejected"); }
@@ -190,40 +215,40 @@ static long run_history(const Args &a, uint64_t seqseed, long cs, AllocCtl &st, 
 				break; }
 			case 6: case 7: { static const char *ks[] = {"NUM", "NEWKEY", "ANOTHERLONGKEYWORD", "bad key", "NAXIS"}; std::string k = ks[r.below(5)]; bool valid = k != "bad key" && k != "NAXIS"; hist += "wkey" + std::to_string(ti) + "(" + k + ");"; phase_log("write_key"); if (!faulted && keyless && populated && before.aux.empty()) count("write_key:first-key-on-a-populated-table-without-keys");
 				std::string v = r.coin(0.5) ? std::to_string(r.below(1000)) : std::string(1 + r.below(30), 'z');
-				try { T->write_key(k.c_str(), v); } catch (std::exception &e) { threw = true; }
+				try { NewArm na_; T->write_key(k.c_str(), v); } catch (std::exception &e) { threw = true; }
 				Snap af = snap(*T);
 				if (threw) { if (!snap_eq(af, before)) fail("write_key:failed-call-changed-the-store"); if (valid && st.failed == failed0) fail("write_key:valid-key-rejected"); }
-				else { if (!valid) fail("write_key:invalid-key-accepted"); const char *got = T->get_aux_value(k.c_str()); if (!got || v != got) fail("write_key:value-not-stored"); }
+				else { if (!valid) fail("write_key:invalid-key-accepted"); const char *got = T->get_aux_value(k.c_str()); if (!got || v != got) { if (st.failed == failed0) fail("write_key:value-not-stored"); else if (!snap_eq(af, before)) fail("write_key:failed-call-changed-the-store"); else count("write_key:returned-normally-without-storing-after-allocation-failure(stream-swallowed-it)"); } }
 				break; }
 			case 8: { static const char *ks[] = {"NUM", "NEWKEY", "LONGERKEYWORD", "ABSENT"}; std::string k = ks[r.below(4)]; hist += "rmkey" + std::to_string(ti) + "(" + k + ");"; phase_log("remove_key"); bool had = false; for (auto &kv : before.aux) if (kv.first == k) had = true; bool res = false;
-				try { res = T->remove_key(k.c_str()); } catch (std::exception &e) { threw = true; }
+				try { NewArm na_; res = T->remove_key(k.c_str()); } catch (std::exception &e) { threw = true; }
 				Snap af = snap(*T); if (threw) { if (!snap_eq(af, before)) fail("remove_key:failed-call-changed-the-store"); if (st.failed == failed0) fail("remove_key:threw-without-fault"); } else { if (res != had) fail("remove_key:wrong-return-value"); if (af.aux.size() + (had ? 1 : 0) != before.aux.size() || T->get_aux_value(k.c_str())) fail("remove_key:store-inconsistent-after-removal"); }
 				break; }
 			case 9: { if (!populated || r.coin(0.15)) { // invalid convolution requests (empty table, dimension out of range, kernel too small) must throw and change nothing
 					double kn[3] = {-0.1, 0.0, 0.3}; uint32_t dim = populated ? before.ndim + (uint32_t)r.below(3) : (uint32_t)r.below(2); size_t nk = populated && r.coin(0.3) ? r.below(2) : 3; if (populated && nk < 2) dim = (uint32_t)r.below(before.ndim);
-					hist += "convolve" + std::to_string(ti) + "(invalid);"; phase_log("convolve (invalid arguments)"); try { T->convolve(dim, kn, nk); } catch (std::exception &e) { threw = true; }
+					hist += "convolve" + std::to_string(ti) + "(invalid);"; phase_log("convolve (invalid arguments)"); try { NewArm na_; T->convolve(dim, kn, nk); } catch (std::exception &e) { threw = true; }
 					if (!threw) fail("convolve:invalid-arguments-accepted"); else if (!snap_eq(snap(*T), before)) fail("convolve:rejected-call-changed-the-table"); break; }
 				if (before.coef.size() > 600) break; unsigned dim = (unsigned)r.below(before.ndim); int nk = r.range(2, 3); if (before.order[dim] + nk > 6) break; std::vector<double> kn; double y = -0.2; for (int i = 0; i < nk; i++) { kn.push_back(y); y += 0.1 + 0.2 * r.U(); }
-				hist += "convolve" + std::to_string(ti) + ";"; phase_log("convolve"); try { T->convolve(dim, kn.data(), (size_t)nk); } catch (std::exception &e) { threw = true; }
+				hist += "convolve" + std::to_string(ti) + ";"; phase_log("convolve"); try { NewArm na_; T->convolve(dim, kn.data(), (size_t)nk); } catch (std::exception &e) { threw = true; }
 				if (threw) { post_failed("convolve"); if (st.failed == failed0) fail("convolve:threw-without-fault"); } else { if (T->get_order(dim) != before.order[dim] + nk - 1) fail("convolve:order-not-raised"); }
 				break; }
-			case 10: { if (!populated) { hist += "permute" + std::to_string(ti) + "(empty-table);"; phase_log("permuteDimensions on empty table"); std::vector<size_t> p0; if (r.coin(0.5)) p0.push_back(0); try { T->permuteDimensions(p0); } catch (std::exception &e) { threw = true; } if (!p0.empty() && !threw) fail("permuteDimensions:wrong-length-accepted-on-empty-table"); if (!snap_eq(snap(*T), before)) fail("permuteDimensions:changed-an-empty-table"); break; } std::vector<size_t> p(before.ndim); std::iota(p.begin(), p.end(), 0); for (int i = (int)before.ndim - 1; i > 0; i--) std::swap(p[i], p[r.below(i + 1)]); bool valid = r.coin(0.7); if (!valid) p[r.below(before.ndim)] = before.ndim + r.below(2);
-				hist += std::string("permute") + std::to_string(ti) + (valid ? "(valid);" : "(invalid);"); phase_log("permuteDimensions"); try { T->permuteDimensions(p); } catch (std::exception &e) { threw = true; }
-				if (threw) { if (!snap_eq(snap(*T), before)) fail("permuteDimensions:failed-call-changed-the-table"); if (valid) fail("permuteDimensions:valid-permutation-rejected"); } else if (!valid) fail("permuteDimensions:invalid-permutation-accepted");
+			case 10: { if (!populated) { hist += "permute" + std::to_string(ti) + "(empty-table);"; phase_log("permuteDimensions on empty table"); std::vector<size_t> p0; if (r.coin(0.5)) p0.push_back(0); try { NewArm na_; T->permuteDimensions(p0); } catch (std::exception &e) { threw = true; } if (!p0.empty() && !threw) fail("permuteDimensions:wrong-length-accepted-on-empty-table"); if (!snap_eq(snap(*T), before)) fail("permuteDimensions:changed-an-empty-table"); break; } std::vector<size_t> p(before.ndim); std::iota(p.begin(), p.end(), 0); for (int i = (int)before.ndim - 1; i > 0; i--) std::swap(p[i], p[r.below(i + 1)]); bool valid = r.coin(0.7); if (!valid) p[r.below(before.ndim)] = before.ndim + r.below(2);
+				hist += std::string("permute") + std::to_string(ti) + (valid ? "(valid);" : "(invalid);"); phase_log("permuteDimensions"); try { NewArm na_; T->permuteDimensions(p); } catch (std::exception &e) { threw = true; }
+				if (threw) { if (!snap_eq(snap(*T), before)) fail("permuteDimensions:failed-call-changed-the-table"); if (valid && st.failed == failed0) fail("permuteDimensions:valid-permutation-rejected"); } else if (!valid) fail("permuteDimensions:invalid-permutation-accepted");
 				break; }
 			case 11: case 12: { // move construction: object tj is replaced by a table move-constructed from ti
 				if (ti == tj) break; hist += "movector" + std::to_string(tj) + "<-" + std::to_string(ti) + ";"; phase_log("move constructor"); delete obj[tj]; obj[tj] = nullptr;
-				obj[tj] = new ATable(std::move(*T)); Snap src = snap(*T), dst = snap(*obj[tj]);
+				{ NewArm na_; obj[tj] = new ATable(std::move(*T)); } Snap src = snap(*T), dst = snap(*obj[tj]);
 				if (!snap_eq(dst, before)) fail("move-constructor:target-differs-from-source"); if (src.ndim != 0 || !src.aux.empty()) fail("move-constructor:moved-from-table-is-not-empty");
 				break; }
 			case 13: case 14: { if (ti == tj) break; hist += "moveassign" + std::to_string(ti) + "<-" + std::to_string(tj) + ";"; phase_log("move assignment"); Snap other = snap(*obj[tj]); if (!faulted && multi) count((populated || other.ndim || !before.aux.empty() || !other.aux.empty()) ? "move-assignments-between-arenas:storage-held" : "move-assignments-between-arenas:both-empty");
-				*T = std::move(*obj[tj]); if (!snap_eq(snap(*T), other)) fail("move-assignment:target-differs-from-source");
+				{ NewArm na_; *T = std::move(*obj[tj]); } if (!snap_eq(snap(*T), other)) fail("move-assignment:target-differs-from-source");
 				Snap src = snap(*obj[tj]); if (!(src.ndim == 0 && src.aux.empty()) && !snap_eq(src, before)) fail("move-assignment:source-neither-empty-nor-holding-the-target's-former-contents"); if (before.ndim == 0 && before.aux.empty() && !(src.ndim == 0 && src.aux.empty())) fail("move-assignment:moved-from-table-is-not-empty");
 				break; }
 			case 15: { hist += "cmp;"; phase_log("operator=="); bool e1 = (*T == *obj[tj]); bool e2 = (*obj[tj] == *T); if (e1 != e2) fail("operator==:not-symmetric"); if (ti == tj && populated) { bool nan = false; for (float c : before.coef) if (std::isnan(c)) nan = true; if (!e1 && !nan) fail("operator==:table-not-equal-to-itself"); } break; }
 			case 16: { bool mem = r.coin(0.5); hist += std::string(mem ? "writemem" : "write") + std::to_string(ti) + ";"; phase_log(mem ? "write_fits_mem" : "write_fits"); std::pair<void *, size_t> w(nullptr, 0);
-				try { if (mem) w = T->write_fits_mem(); else T->write_fits(outp); } catch (std::exception &e) { threw = true; }
-				if (!populated && !threw) fail("write:empty-table-written"); if (populated && threw) fail("write:populated-table-could-not-be-written");
+				try { NewArm na_; if (mem) w = T->write_fits_mem(); else T->write_fits(outp); } catch (std::exception &e) { threw = true; }
+				if (!populated && !threw) fail("write:empty-table-written"); if (populated && threw && st.failed == failed0) fail("write:populated-table-could-not-be-written");
 				if (!threw) { ATable R{CA<void>(arena(nobj))}; bool rd = true; try { if (mem) R.read_fits_mem(w.first, w.second); else R.read_fits(outp); } catch (std::exception &e) { rd = false; } if (rd && !(R == *T) ) { bool nan = false; for (float c : before.coef) if (std::isnan(c)) nan = true; if (!nan) fail("write:written-table-reads-back-different"); } if (!rd && st.failed == failed0) fail("write:written-table-unreadable"); }
 				free(w.first); unlink(outp.c_str()); if (!snap_eq(snap(*T), before)) fail("write:writing-changed-the-table"); break; }
 			case 20: case 21: { // stacking constructor: object tj is replaced by a table stacked from 2-4 copies of object ti along a new last dimension
@@ -233,12 +258,12 @@ static long run_history(const Args &a, uint64_t seqseed, long cs, AllocCtl &st, 
 					if (iv == 0) { lay.resize(1); zz.resize(1); } else if (iv == 1) zz.push_back(9.0); else if (iv == 2) std::swap(zz[0], zz[1]); else if (iv == 3) lay[nl - 1] = &emptyT;
 					else { ATable *other = obj[tj]; bool same = ti == tj || !(other->get_ndim()) ? true : (other->get_ndim() == T->get_ndim()); if (same && other != T && other->get_ndim() == T->get_ndim()) { same = true; for (unsigned d = 0; d < T->get_ndim(); d++) if (other->get_nknots(d) != T->get_nknots(d) || other->get_order(d) != T->get_order(d)) same = false; } if (same || other->get_ndim() == 0) break; lay[0] = other; }
 					hist += "stack(invalid:" + std::to_string(iv) + ");"; phase_log("stacking constructor (invalid arguments)"); ATable *S2 = nullptr;
-					try { S2 = new ATable(lay, zz, so, CA<void>(arena(tj))); } catch (std::exception &e) { threw = true; }
+					try { NewArm na_; S2 = new ATable(lay, zz, so, CA<void>(arena(tj))); } catch (std::exception &e) { threw = true; }
 					if (!threw) { fail("stacking-constructor:invalid-arguments-accepted:" + std::to_string(iv)); delete S2; } else count("stacking-constructor:invalid-requests-refused");
 					if (!snap_eq(snap(*T), before)) fail("stacking-constructor:changed-its-input"); break; }
 				std::vector<ATable *> layers(nl, T); std::vector<double> zs; double z = -1.0; for (int i = 0; i < nl; i++) { zs.push_back(z); z += 0.5 + r.U(); }
 				hist += "stack" + std::to_string(tj) + "<-" + std::to_string(nl) + "x" + std::to_string(ti) + "(order" + std::to_string(so) + ");"; phase_log("stacking constructor");
-				ATable *S = nullptr; try { S = new ATable(layers, zs, so, CA<void>(arena(tj))); } catch (std::exception &e) { threw = true; }
+				ATable *S = nullptr; try { NewArm na_; S = new ATable(layers, zs, so, CA<void>(arena(tj))); } catch (std::exception &e) { threw = true; }
 				if (threw) { if (st.failed == failed0) fail("stacking-constructor:threw-on-valid-arguments"); break; }
 				if (!snap_eq(snap(*T), before)) fail("stacking-constructor:changed-its-input");
 				if (S->get_ndim() != before.ndim + 1) fail("stacking-constructor:result-has-wrong-dimension");
@@ -249,11 +274,11 @@ static long run_history(const Args &a, uint64_t seqseed, long cs, AllocCtl &st, 
 				  for (int q = 0; q < 6 && std::isfinite(cmax); q++) { for (unsigned d = 0; d < nd0; d++) { double lo = before.knots[d][before.order[d]], hi = before.knots[d][before.nknots[d] - before.order[d] - 1]; x[d] = lo + (hi - lo) * r.U(); }
 				    double zl = S->lower_extent(nd0), zh = S->upper_extent(nd0); x[nd0] = zl + (zh - zl) * r.U(); double a0 = (*T)(x.data()), a1 = (*S)(x.data());
 				    if (std::isfinite(a0) && !(std::fabs(a1 - a0) <= 1e-4 * (std::fabs(a0) + cmax) + 1e-30)) { fail("stacking-constructor:stack-of-identical-tables-is-not-constant-along-the-new-dimension"); break; } count("stacked-table-evaluations"); } }
-				delete obj[tj]; obj[tj] = S; phase_log("use of stacked table"); use_table(*S, r);
+				delete obj[tj]; obj[tj] = S; phase_log("use of stacked table"); { NewArm na_; use_table(*S, r); }
 				break; }
-			case 17: case 18: { hist += "use" + std::to_string(ti) + ";"; phase_log("getters+evaluation"); std::string wf = wellformed(*T); if (!wf.empty()) fail("state:table-not-well-formed:" + wf); use_table(*T, r); break; }
-			default: { if (!populated) { hist += "grideval" + std::to_string(ti) + "(empty-table);"; phase_log("grideval on empty table"); std::vector<std::vector<double>> g0; try { auto res = T->grideval(g0); } catch (std::exception &e) { threw = true; } if (!threw) fail("grideval:empty-table-accepted"); break; }
-				if (before.coef.size() > 600) break; hist += "grideval" + std::to_string(ti) + ";"; phase_log("grideval"); std::vector<std::vector<double>> g(before.ndim); for (unsigned d = 0; d < before.ndim; d++) for (int i = 0; i < 2; i++) g[d].push_back(before.knots[d][0] + (before.knots[d].back() - before.knots[d][0]) * r.U()); try { auto res = T->grideval(g); } catch (std::exception &e) { threw = true; } if (threw && st.failed == failed0) fail("grideval:threw-without-fault"); if (!snap_eq(snap(*T), before)) fail("grideval:changed-the-table"); break; }
+			case 17: case 18: { hist += "use" + std::to_string(ti) + ";"; phase_log("getters+evaluation"); std::string wf = wellformed(*T); if (!wf.empty()) fail("state:table-not-well-formed:" + wf); { NewArm na_; use_table(*T, r); } break; }
+			default: { if (!populated) { hist += "grideval" + std::to_string(ti) + "(empty-table);"; phase_log("grideval on empty table"); std::vector<std::vector<double>> g0; try { NewArm na_; auto res = T->grideval(g0); } catch (std::exception &e) { threw = true; } if (!threw) fail("grideval:empty-table-accepted"); break; }
+				if (before.coef.size() > 600) break; hist += "grideval" + std::to_string(ti) + ";"; phase_log("grideval"); std::vector<std::vector<double>> g(before.ndim); for (unsigned d = 0; d < before.ndim; d++) for (int i = 0; i < 2; i++) g[d].push_back(before.knots[d][0] + (before.knots[d].back() - before.knots[d][0]) * r.U()); try { NewArm na_; auto res = T->grideval(g); } catch (std::exception &e) { threw = true; } if (threw && st.failed == failed0) fail("grideval:threw-without-fault"); if (!snap_eq(snap(*T), before)) fail("grideval:changed-the-table"); break; }
 			}
 		} catch (std::bad_alloc &e) { if (!faulted || st.failed == failed0) fail("bad_alloc-escaped-without-injected-fault"); else { hist += "[bad_alloc];"; refill(); } }
 		catch (std::exception &e) { fail(std::string("unexpected-exception:") + std::string(e.what()).substr(0, 60)); refill(); }
@@ -289,6 +314,17 @@ static void run_C20(const Args &a, long cs) {
 		run_history(a, 0, cs, st, true, h2);
 		count("faulted-histories"); if (st.failed) count("faults-fired"); distinct(hash_mix(hash_str(h2), (uint64_t)k + 1000));
 		std::string lk2 = leak_check(g_tmp); if (!lk2.empty()) { viol("C20:leak(LSan):after-allocation-failure:" + lk2, "{\"fail_at_allocation\":" + std::to_string(k) + ",\"history\":" + jstr(h2.substr(0, 1200)) + "}"); finish_early_and_exit(); }
+	}
+	// the same for the global allocation functions: the k-th operator new inside a library call throws
+	long N2 = g_new_count; count("operator-new-calls-inside-library-calls(unfaulted)", N2);
+	long maxf2 = a.tier == "thorough" ? 200 : 40; long step2 = N2 > maxf2 ? (N2 + maxf2 - 1) / maxf2 : 1;
+	for (long k = (long)(cs % step2); k < N2 && out().nviol < 3; k += step2) {
+		AllocCtl st; std::string h2; g_new_fail_at = k; g_new_failed = 0;
+		context("operator new number " + std::to_string(k) + " inside library calls throws");
+		run_history(a, 0, cs, st, true, h2);
+		g_new_fail_at = -1;
+		count("faulted-histories(operator-new)"); if (g_new_failed) count("operator-new-faults-fired"); distinct(hash_mix(hash_str(h2), (uint64_t)k + 500000));
+		std::string lk2 = leak_check(g_tmp); if (!lk2.empty()) { viol("C20:leak(LSan):after-operator-new-failure:" + lk2, "{\"fail_at_new\":" + std::to_string(k) + ",\"history\":" + jstr(h2.substr(0, 1200)) + "}"); finish_early_and_exit(); }
 	}
 	if (cs % 20 == 0) sample("{\"history\":" + jstr(hist.substr(0, 600)) + ",\"allocations\":" + std::to_string(N) + "}");
 }
